@@ -96,6 +96,12 @@ class Den:
     def den(self, n):  # noqa: C901
         if isinstance(n, ObjVal) and n.tag and 'true_sort' in n.tag:
             return self.operand_value(n)
+        if isinstance(n, ObjVal) and n.tag and n.tag.get('lazy'):
+            # a piece taken out of an opaque operand: nothing is known about
+            # its value (a rewrite that relies on it cannot be justified)
+            p = sym.cur()
+            return ('BV', p.fresh_int('piece_width'),
+                    p.fresh_int('piece_value'))
         d = n.attrs['data']
         if isinstance(d, (str, SStr)):
             if isinstance(d, str):
